@@ -24,6 +24,12 @@ var (
 	// that is already stopped.
 	ErrAlreadyStopped = errors.New("already stopped")
 
+	// ErrStopInProgress is returned by Start while a previous Stop or
+	// StopWithContext of the same election is still waiting for its
+	// background goroutines (e.g. it gave up after its time-out while a store
+	// call was hanging). Retry once they have finished.
+	ErrStopInProgress = errors.New("previous stop still in progress")
+
 	// ErrElectionFailed is returned when leader election fails.
 	ErrElectionFailed = errors.New("election failed")
 
